@@ -93,13 +93,41 @@ head or an unmapped page. -/
 theorem malloc_never_fails {V : Type} (s : State V) (inv : Inv s) (size : Nat) :
     ∃ s' a, malloc s size = .ok (s', a) := malloc_total inv.g size
 
--- non-vacuity: the hypotheses of the theorems above are satisfiable and traces exist
+-- non-vacuity: the hypotheses of the theorems in this file are satisfiable and traces exist
+-- (`Inv s`, a live allocation, successful Malloc / Free / write / defrag steps).  Passes that really
+-- relocate cannot be exhibited by kernel evaluation (Std.HashMap does not reduce in the kernel); the
+-- correspondence run feeds the model the passes of the real allocator and counts the accepted ones
+-- (evidence histogram `defrag:pass relocated=…`).
 example : Inv (init : State Nat) := init_inv
-example : ∃ s a, run (init : State Nat) [.malloc 10] = .ok s ∧ s.isLive a := by
+example : ∃ s a, run (init : State Nat) [.malloc 10] = .ok s ∧ s.isLive a ∧ Inv s := by
   obtain ⟨s', a, h⟩ := malloc_total (init_inv (V := Nat)).g 10
-  refine ⟨s', a, by simp [run, foldE, step, h], ?_⟩
+  have hrun : run (init : State Nat) [.malloc 10] = .ok s' := by simp [run, foldE, step, h]
+  refine ⟨s', a, hrun, ?_, alloc_inv _ _ hrun⟩
   have := (malloc_inv init_inv h).2.2
   simp [State.isLive, this, KMap.get?_set]
+example : ∃ s a s2 s3, run (init : State Nat) [.malloc 200000] = .ok s ∧ s.isLive a ∧
+    step s (.write a 5) = .ok s2 ∧ step s2 (.free a) = .ok s3 := by
+  obtain ⟨s', a, h⟩ := malloc_total (init_inv (V := Nat)).g 200000
+  have hrun : run (init : State Nat) [.malloc 200000] = .ok s' := by simp [run, foldE, step, h]
+  have i1 := alloc_inv _ _ hrun
+  have hl : s'.live.get? a = some ⟨200000, none⟩ := by
+    rw [(malloc_inv init_inv h).2.2, KMap.get?_set, if_pos rfl]
+  obtain ⟨m, hm, _⟩ := i1.g.live a _ hl
+  have hw : ∃ s2, write s' a 5 = .ok s2 := by simp [write, hl, hm]
+  obtain ⟨s2, hw⟩ := hw
+  obtain ⟨i2, l0, _, hl2⟩ := write_inv i1 hw
+  obtain ⟨s3, h3⟩ := free_total i2 (a := a) (by simp [State.isLive, hl2, KMap.get?_set])
+  exact ⟨s', a, s2, s3, hrun, by simp [State.isLive, hl], hw, h3⟩
+example : ∃ s', step (init : State Nat) (.defrag []) = .ok s' := by
+  have hf : ∀ (l : List Nat) (s : State Nat), (∀ c, wantsDefrag s c = false) →
+      foldE (fun s c => if wantsDefrag s c then defragClass s c (([] : List (Nat × List Nat)).lookup c |>.getD [])
+        else if (([] : List (Nat × List Nat)).lookup c |>.getD []).isEmpty then .ok s else .error .illegalChoice) s l = .ok s := by
+    intro l; induction l with
+    | nil => intro s _; rfl
+    | cons c r ih => intro s h; simp only [foldE, h c]; exact ih s h
+  refine ⟨{ (init : State Nat) with relog := [] }, ?_⟩
+  simp only [step, defragAll]
+  exact hf _ _ (by intro c; simp [wantsDefrag, State.K, init])
 
 /-- Malloc never hands out memory that is live: the returned slot was not live before, it is a slot of
 a mapped page below `brk ≤ cap` (hence inside the page, `slots_disjoint_inside_page`), or a fresh
